@@ -14,6 +14,7 @@ import (
 
 	"pgregory.net/rapid"
 
+	v35 "github.com/bluenviron/mediamtx/internal/verifc35"
 	kit "github.com/bluenviron/mediamtx/internal/verifkit"
 )
 
@@ -38,21 +39,22 @@ var c35Listeners = []struct {
 	{"moq", 8, (*c35G).genMoQ},
 }
 
-func c35PickListener(t *rapid.T, idx int, only string) int {
-	if only != "" {
-		for i, l := range c35Listeners {
-			if l.name == only {
-				return i
-			}
-		}
-	}
-	var table []int
+func c35PickListener(x *v35.Src, only string) int {
+	total := 0
 	for i, l := range c35Listeners {
-		for k := 0; k < l.weight; k++ {
-			table = append(table, i)
+		if l.name == only {
+			return i
 		}
+		total += l.weight
 	}
-	return rapid.SampledFrom(table).Draw(t, fmt.Sprintf("i%d.listener", idx))
+	k := x.Intn(total)
+	for i, l := range c35Listeners {
+		if k < l.weight {
+			return i
+		}
+		k -= l.weight
+	}
+	return 0
 }
 
 type c35Journal struct {
@@ -119,9 +121,12 @@ func c35Live(t *testing.T, name string, restricted bool) {
 		}
 		n := rapid.IntRange((batchMax+1)/2, batchMax).Draw(t, "batchSize")
 		batch := make([]*c35Input, n)
+		levels := make([]int, n)
 		for i := range batch {
-			g := &c35G{t: t, s: srv, n: i}
-			batch[i] = c35Listeners[c35PickListener(t, i, only)].gen(g)
+			x := v35.NewSrc(t, fmt.Sprintf("i%d", i))
+			g := &c35G{s: srv, x: x}
+			batch[i] = c35Listeners[c35PickListener(x, only)].gen(g)
+			levels[i] = x.Level
 		}
 		js, err := json.Marshal(c35Journal{Test: name, Restricted: restricted, Inputs: batch})
 		if err != nil {
@@ -135,7 +140,7 @@ func c35Live(t *testing.T, name string, restricted bool) {
 
 		for i, in := range batch {
 			r := results[i]
-			classes := []string{"gen:" + in.Cls, "listener:" + in.L}
+			classes := []string{"gen:" + in.Cls, "listener:" + in.L, fmt.Sprintf("oddity-level:%d", levels[i])}
 			if r.Deep {
 				classes = append(classes, "deep:"+in.L)
 			}
